@@ -33,6 +33,9 @@ var c19Alphabet = []string{
 	/*12*/ "type T = +{l : 1}\ntype S = 1\nlet f(x : S) : T = fwd self x\nprc[a] : 1 = print a12; close self\n",
 	/*13*/ "prc[a] : 1 = print a13; close self\nprc[b] : 1 = print b13; close self\n#\n",
 	/*14*/ "print e14; close self\n",
+	/*15*/ "type A = 1\ntype B = 1 * 1\nlet consume(x : A) : 1 = wait x; print no15; close self\nprc[p] : 1 = consume(q)\nprc[q] : B = u : 1 <- new close self; v : 1 <- new close self; send self<u, v>\n",
+	/*16*/ "type A = 1\ntype B = 1\nlet consume(x : A) : 1 = wait x; print a16; close self\nprc[p] : 1 = consume(q)\nprc[q] : B = print q16; close self\n",
+	/*17*/ "type A = 1\ntype B = 1\nlet consume(x : A) : 1 = wait x; print no17; close self\nprc[p] : 1 = consume(q)\nprc[q] : B = close self\nprc[r] : 1 = wait zz; close self\n",
 }
 
 // programs that are run with typechecking switched off (a bare expression has no type)
@@ -201,6 +204,9 @@ func c19Cases(c *harness.Ctx) []c19Case {
 			if l > fullLen {
 				d = 0
 			}
+			if c.Thorough() && l == 4 {
+				d = 1
+			}
 			for mode := 0; mode < 2; mode++ {
 				out = append(out, c19Case{append([]int{}, h...), mode, d, false})
 			}
@@ -226,7 +232,7 @@ const c19Chunk = 20
 func init() {
 	harness.Register(&harness.Check{
 		ID: "C19", Level: "model_checking",
-		Rule: "breadth-first over histories: all sequences of length <= 3 over an alphabet of 15 programs chosen to leave residue (unparseable, illegal character, two rejected programs, silent, printing with goroutines left blocked after cancellation, exec counter, multi-name provider, two programs reusing type/function/process names with different meanings, a drop cascade, two programs reusing type names with equal / unequal definitions, valid statements followed by an illegal character, a bare expression run without typechecking), in async and sync polarized mode, each history executed inside ONE scheduler instance (all histories of length 2 additionally with ONE RuntimeEnvironment object reused by both runs) so that tasks left over from earlier runs stay schedulable during later ones, over all schedules with delay <= 1 (delay <= 2 for length <= 2 in the thorough tier); thorough also all histories of length 4 under the default schedule; differential oracle: verdict, printed multiset and panics of the i-th run equal those of the same program run alone in a FRESH process; no task panics at all (a panic kills the host and every later run); no task of an earlier run prints during a later run; a worker process executes many histories one after another, so state leaking between histories is detected as well; states/transitions as in C01",
+		Rule: "breadth-first over histories: all sequences of length <= 3 over an alphabet of 18 programs chosen to leave residue (unparseable, illegal character, two rejected programs, silent, printing with goroutines left blocked after cancellation, exec counter, multi-name provider, two programs reusing type/function/process names with different meanings, a drop cascade, two programs reusing type names with equal / unequal definitions, three programs comparing two type names at a call argument where they are unequal (rejected) / equal (accepted) / equal in a program rejected for another reason, valid statements followed by an illegal character, a bare expression run without typechecking), in async and sync polarized mode, each history executed inside ONE scheduler instance (all histories of length 2 additionally with ONE RuntimeEnvironment object reused by both runs) so that tasks left over from earlier runs stay schedulable during later ones, over all schedules with delay <= 1 (delay <= 2 for length <= 2 in the thorough tier); thorough also all histories of length 4 with delay <= 1; differential oracle: verdict, printed multiset and panics of the i-th run equal those of the same program run alone in a FRESH process; no task panics at all (a panic kills the host and every later run); no task of an earlier run prints during a later run; a worker process executes many histories one after another, so state leaking between histories is detected as well; states/transitions as in C01",
 		Assumptions: append([]string{"prints and panics are attributed to runs by the epoch in which their task was created"}, mcAssumptions...),
 		Cases:       func(c *harness.Ctx) int { return (len(c19Cases(c)) + c19Chunk - 1) / c19Chunk },
 		Run: func(c *harness.Ctx, idx int, r *harness.Rec) {
